@@ -52,10 +52,9 @@ func expect(exchange string, etype int, p refkdc.Perturb, addrsRequested bool) s
 		// (unprotected) fields too - the client files the TGT under them
 		return "reject"
 	case "ticket-sname":
-		if as {
-			return "reject"
-		}
-		return "either"
+		// the client files the TGT (AS) and caches the ticket or follows it as a referral (TGS) under
+		// the ticket's own, unprotected name: it has to agree with the sealed one
+		return "reject"
 	case "caddr-added":
 		// "addresses inside the allowed bounds": a reply may list fewer addresses than were asked
 		// for, never one that was not asked for - also when none was asked for
@@ -194,6 +193,7 @@ func run(tapeJSON json.RawMessage, res *core.Result) {
 	gk.Wire(net, other, []string{otherAddr}, pt)
 	lastReply := map[byte][]byte{}
 	errShot, staleShot, truncShot := false, false, false
+	var withheld []byte
 	targetSeen := 0
 	net.Mangle = func(proto, addr string, req, reply []byte) []byte {
 		if len(req) == 0 {
@@ -225,6 +225,25 @@ func run(tapeJSON json.RawMessage, res *core.Result) {
 					k = other
 				}
 				return k.ErrorReply(int32(tp.NetArg), req, nil)
+			}
+		case "stale-within-exchange":
+			// the answer to the first request of the exchange is withheld and a (forgeable) pre-
+			// authentication error sent in its place; the withheld answer then arrives in reply to the
+			// request the client sends next
+			if len(reply) > 0 && reply[0] == 0x6b {
+				if withheld == nil {
+					withheld = reply
+					k := sim
+					if addr == otherAddr {
+						k = other
+					}
+					return k.ErrorReply(25, req, k.HintsEData(req))
+				}
+				if !staleShot {
+					res.Probes["stale-reply-delivered"]++
+				}
+				staleShot = true
+				return withheld
 			}
 		case "stale":
 			if prev != nil && len(reply) > 0 && (reply[0] == 0x6b || reply[0] == 0x6d) {
